@@ -243,7 +243,131 @@ variable (r : ℕ) [NeZero r]
     return A
 
 
+PINST = "(G := Ex q) (G2 := Ex2 q) (S := Ex q) (L := Unit)"
+
+
+def ped_file(pkg):
+    ns = f"pedersen_{pkg}"
+    T = []
+    A = []
+
+    def thm(name, text):
+        A.append(name)
+        T.append(text)
+
+    thm(f"C17gen_{pkg}_ped_verify", f"""/-- `(*VerifyingKey).Verify` as the Go text computes it, read in the exponent model with every point in the subgroup,
+IS `Model.ArgPairing.pedVerify` run with the driver's dictionary `fp q` (every input) -/
+theorem C17gen_{pkg}_ped_verify (vkG vkS : Ex2 q) (C pok : Ex q) :
+    {ns}.VerifyingKey_Verify {PINST} Ex.toInt (fun _ => true) (pcP q) vkG vkS C pok
+      = resOfPed (pedVerify (fp q) ⟨vkG.v, vkS.v⟩ C.v pok.v) := by
+  have h : pcP q [C, pok] [vkS, vkG] = pedVerify (fp q) ⟨vkG.v, vkS.v⟩ C.v pok.v := rfl
+  simp only [{ns}.VerifyingKey_Verify, h, resOfPed]
+  cases pedVerify (fp q) ⟨vkG.v, vkS.v⟩ C.v pok.v <;> rfl
+""")
+    thm(f"C17gen_{pkg}_ped_verify_abstract", f"""/-- abstract level: for ANY group, subgroup predicate and pairing check the code returns nil iff both points pass the
+subgroup check and the pairing check holds of (commitment, proof) against (vk.GSigmaNeg, vk.G) -/
+theorem C17gen_{pkg}_ped_verify_abstract {{G G2 S L : Type}} [AddCommGroup G] [CommRing S] [BEq G2] (toInt : S → Int)
+    (isg : G → Bool) (pc : List G → List G2 → Bool) (vkG vkS : G2) (C pok : G) :
+    {ns}.VerifyingKey_Verify (L := L) toInt isg pc vkG vkS C pok = Res.ok ↔
+      (isg C = true ∧ isg pok = true ∧ pc [C, pok] [vkS, vkG] = true) := by
+  simp only [{ns}.VerifyingKey_Verify]
+  cases isg C <;> cases isg pok <;> cases pc [C, pok] [vkS, vkG] <;> simp
+""")
+    thm(f"C17gen_{pkg}_ped_verify_subgroup", f"""/-- a point outside the subgroup is rejected whatever the pairing check says -/
+theorem C17gen_{pkg}_ped_verify_subgroup {{G G2 S L : Type}} [AddCommGroup G] [CommRing S] [BEq G2] (toInt : S → Int)
+    (isg : G → Bool) (pc : List G → List G2 → Bool) (vkG vkS : G2) (C pok : G) (h : isg C = false ∨ isg pok = false) :
+    {ns}.VerifyingKey_Verify (L := L) toInt isg pc vkG vkS C pok = Res.err "subgroup check failed" := by
+  simp only [{ns}.VerifyingKey_Verify]
+  rcases h with h | h <;> simp [h]
+""")
+    for k in range(1, 4):
+        for npok in ([k] if k == 1 else [k, 1]):
+            name = f"BatchVerifyMultiVk_k{k}" if npok == k else f"BatchVerifyMultiVk_n{k}_{k}_1"
+            tag = f"k{k}" if npok == k else f"k{k}_folded"
+            g, sg, c, pk = seq("g", k), seq("s", k), seq("c", k), seq("p", npok)
+            vkargs = [x for i in range(k) for x in (g[i], sg[i])]
+            vks = "[" + ", ".join(f"⟨{g[i]}.v, {sg[i]}.v⟩" for i in range(k)) + "]"
+            cases = " <;> ".join(f"cases hg{i} : (fp q).beq {g[i]}.v g0.v" for i in range(1, k))
+            cases_line = (f"  {cases}\n  all_goals first | (simp; done) | skip\n" if k > 1 else "")
+            thm(f"C17gen_{pkg}_ped_batch_{tag}", f"""/-- `BatchVerifyMultiVk` on {k} keys / commitments and {npok} proof(s) of knowledge{"" if npok == k else " (the folded proof)"}, every point in the subgroup:
+the Go text accepts iff `Model.ArgPairing.pedBatchVerify` (dictionary `fp q`) accepts -/
+theorem C17gen_{pkg}_ped_batch_{tag} ({sp(vkargs)} : Ex2 q) ({sp(c + pk)} co : Ex q) :
+    {ns}.{name} {PINST} Ex.toInt (fun _ => true) (pcP q) {sp(vkargs + c + pk)} co = Res.ok
+      ↔ pedBatchVerify (fp q) {vks} {vlist(c)} {vlist(pk)} co.v = some true := by
+  have hb : ∀ a b : Ex2 q, (a != b) = !(fp q).beq a.v b.v := fun _ _ => rfl
+  have h0 : (fp q).beq g0.v g0.v = true := by simp [fp_beq_decide]
+  simp only [{ns}.{name}, hb, Bool.not_true, Bool.false_eq_true, if_false]
+  simp only [pedBatchVerify, List.length_cons, List.length_nil, ne_eq, not_true_eq_false, false_and, and_false, if_false,
+    List.any_cons, List.any_nil, h0, Bool.not_true, Bool.false_or, Bool.or_false, reduceCtorEq, OfNat.ofNat_ne_one,
+    Nat.reduceAdd, Nat.reduceEqDiff]
+{cases_line}  simp only [Bool.not_true, Bool.false_eq_true, if_false, Option.some.injEq, Bool.or_self, Bool.or_false]
+  apply res_ok_iff_of_eq
+  apply fp_pairingCheck_congr
+  simp only [List.map, ArgPairing.dot, scaleByPowers, ArgPairing.fold, powersFrom, List.length, List.cons_append,
+    List.nil_append, smul_v, add_v, mul_v, one_v, zero_v]
+  simp only [cast_fp_add, cast_fp_mul, cast_fp_zero, cast_fp_one, cast_addm, cast_mulm, cast_one_mod, Nat.cast_zero]
+  ring
+""")
+            # abstract statement: the raw shape of the operands the code builds
+            rp = ["", "co"]
+            for i in range(2, k):
+                rp.append(f"{rp[-1]} * co" if i == 2 else f"{rp[-1]} * co")
+            g1ops = [c[0]] + [f"toInt ({rp[i]}) • {c[i]}" for i in range(1, k)]
+            fs = ["(1 : S)"]
+            for i in range(1, npok):
+                fs.append(f"{fs[-1]} * co")
+            foldsum = "(0 : G)"
+            for i in range(npok - 1, -1, -1):
+                foldsum = f"toInt ({fs[i]}) • {pk[i]} + {foldsum}"
+                if i > 0:
+                    foldsum = "(" + foldsum + ")"
+            conds = [f"isg {c[0]} = true"]
+            for i in range(1, k):
+                conds += [f"isg {c[i]} = true", f"({g[i]} != g0) = false"]
+            conds += [f"isg {x} = true" for x in pk]
+            thm(f"C17gen_{pkg}_ped_batch_{tag}_abstract", f"""/-- abstract level ({k} keys, {npok} proof(s)): nil iff every subgroup check passes, every vk[i].G equals vk[0].G and the pairing check
+holds of (C₀, [r]C₁, [r²]C₂…, Σ[rⁱ]pokᵢ) against (GSigmaNeg₀, …, G₀), r = combinationCoeff -/
+theorem C17gen_{pkg}_ped_batch_{tag}_abstract {{G G2 S L : Type}} [AddCommGroup G] [CommRing S] [BEq G2] (toInt : S → Int)
+    (isg : G → Bool) (pc : List G → List G2 → Bool) ({sp(vkargs)} : G2) ({sp(c + pk)} : G) (co : S) :
+    {ns}.{name} (L := L) toInt isg pc {sp(vkargs + c + pk)} co = Res.ok ↔
+      ({" ∧ ".join(conds)} ∧
+        pc [{", ".join(g1ops)}, {foldsum}] [{", ".join(sg)}, g0] = true) := by
+  simp only [{ns}.{name}]
+  split_ifs <;> simp_all
+""")
+    body = HEAD + f"""import GnarkVerif.Proofs.VerifierGenPed
+import GnarkVerif.Gen.Verifier.Pedersen_{pkg}
+import Mathlib.Algebra.Group.Basic
+import Mathlib.Algebra.Ring.Defs
+import Mathlib.Tactic.Ring
+import Mathlib.Tactic.SplitIfs
+/-
+C17 (Pedersen), tie T for ecc/{pkg.replace("_", "-")}/fr/pedersen/pedersen.go: (*VerifyingKey).Verify and BatchVerifyMultiVk (1..3 keys; one proof of
+knowledge per key, or one folded proof) as REGENERATED from the Go text (Gen/Verifier/Pedersen_{pkg}.lean).
+Unmarked theorems: the generated def, read in the exponent model with the driver's dictionary `fp q` (Proofs/VerifierGenPed.lean; every
+point passes `IsInSubGroup`, which is vacuous in that model), accepts exactly when `Model/ArgPairing.lean` `pedVerify` / `pedBatchVerify`
+does — so `C17a_ped_*` (for `fp q`: `lawful_fp`) hold of the translated text. `_abstract`: the operands over ANY group / pairing check.
+-/
+{OPTS}
+open GV GV.Alg GV.KZG GV.Gen.Verifier GV.VerifierGen GV.ArgPairing
+namespace GV.C17gen
+variable (q : ℕ) [NeZero q]
+
+""" + "\n".join(T) + "\nend GV.C17gen\n"
+    open(os.path.join(PROPS, f"C17_gen_{pkg}.lean"), "w").write(body)
+    return A
+
+
 def main():
+    pnames = []
+    for pkg in PKGS:
+        pnames += ped_file(pkg)
+    open(os.path.join(PROPS, "C17_gen.lean"), "w").write(
+        HEAD + "".join(f"import GnarkVerif.Props.C17_gen_{p}\n" for p in PKGS) +
+        "/-\nC17 tie T (Pedersen verifiers, group level): see Props/C17_gen_<curve>.lean. This root module only collects the 7 instances.\n-/\n")
+    open(os.path.join(AUDIT, "C17_gen.lean"), "w").write(
+        "import GnarkVerif.Props.C17_gen\nopen GV.C17gen\n" + "".join(f"#print axioms {n}\n" for n in pnames))
+    print(f"C17_gen: {len(pnames)} theorems in {len(PKGS)} files")
     names = []
     for pkg in PKGS:
         names += kzg_file(pkg)
